@@ -64,7 +64,7 @@ class Opts:
     discriminators: bool = False    # oneOf of object schemas with a discriminator + mapping (inline enum on the discriminator property)
     allof_variants: bool = False    # requirement-only allOf parts, own part before the parent, properties next to allOf
     colliding_names: bool = False   # schema names that collide after class-casing / snake-casing (LineItem, line_item, Line-Item)
-    ndjson: bool = False            # application/x-ndjson responses (parsed as SSE by the generated code: F43)
+    ndjson: bool = False            # application/x-ndjson responses (iterated with iter_ndjson since the repair of F43)
     enum_params: bool = True
     typed_headers: bool = False     # header parameters of non-string type (F39)
     name_clash: bool = False        # property names that class-case to a schema name / parent prefix (F36, F37)
